@@ -150,3 +150,70 @@ contract('matcher.SectionValue.__init__',
          ensures=[Clause('self._dict == values and self._attributes == keys(values)', carries='C02',
                          label='exposes-exactly-the-attributes'),
                   Clause('self._name == name and self._matcher == matcher', carries='C02')])
+
+# ---- closing a container: completion (C01) and conversion (C02) ---------------------------------------------------
+prim('sdt_raises', 'Fun[sdt], Ref[matcher.SectionValue] -> bool')
+prim('sdt_val', 'Fun[sdt], Ref[matcher.SectionValue] -> Opaque[PyVal]')
+assumed('fun:sdt', params={'fn': 'Fun[sdt]', 'x': 'Ref[matcher.SectionValue]'}, returns='Opaque[PyVal]', pure=True,
+        ensures=[Clause('result == sdt_val(fn, x)')],
+        raises=[Raise('ValueError', when='sdt_raises(fn, x)')],
+        notes='a section datatype of a schema: a function of the section value that returns or raises ValueError')
+
+ATTR_I = 'val(self.type._children[i][1].attribute)'
+CONV_ALL = ('forall(lambda i: implies(0 <= i and i < len(self.type._children), '
+            'conv_ok(self.type._children[i][1], old(self._values)[%s], self._values[%s])))' % (ATTR_I, ATTR_I))
+VALUE_OF = [Clause('fresh(result) and result._matcher == self and result._dict == self._values and '
+                   'result._attributes == keys(self._values)', carries='C02', label='value-exposes-exactly-the-attributes'),
+            Clause("result._name == (cast(self, 'matcher.SectionMatcher').name if isa(self, 'matcher.SectionMatcher') else None)",
+                   carries='C02', label='reports-its-name')]
+assumed('matcher.BaseMatcher.constuct', returns='Ref[matcher.SectionValue]', fresh_result=True,
+        modifies=['self._values', 'self.handlers.items'],
+        ensures=[Clause(CONV_ALL, carries='C02', label='every-attribute-converted-as-its-kind-demands'),
+                 Clause('keys(self._values) == keys(old(self._values))', carries='C02', label='same-attributes')] + VALUE_OF,
+        raises=[Raise('ZConfig.DataConversionError', then=[Clause('exc.has_lineno')])],
+        notes='NOT YET VERIFIED (nested loops and comprehensions over the tagged slots): the conversion step of '
+              'finish(); decided by the bounded stand-ins of C02 / C16')
+
+J_ATTR = 'val(self.type._children[j][1].attribute)'
+DONE_J = ('forall(lambda j: implies(0 <= j and j < _i0, '
+          'complete_ok(self.type._children[j][1], old(self._values)[%s]) and '
+          'self._values[%s] == complete_slot(self.type._children[j][1], old(self._values)[%s])))' % (J_ATTR, J_ATTR, J_ATTR))
+TODO_J = ('forall(lambda j: implies(_i0 <= j and j < len(self.type._children), '
+          'self._values[%s] == old(self._values)[%s]))' % (J_ATTR, J_ATTR))
+contract('matcher.BaseMatcher.finish', returns='Ref[matcher.SectionValue]', fresh_result=True,
+         modifies=['self._values', 'self.handlers.items'],
+         asserts=[At('forall(lambda j: implies(0 <= j and j < len(self.type._children), '
+                     'self._values[%s] == complete_slot(self.type._children[j][1], old(self._values)[%s])))' % (J_ATTR, J_ATTR),
+                     call='self.constuct', carries='C02',
+                     label='defaults-filled-in-where-the-text-gave-nothing-before-conversion')],
+         ensures=[Clause('first_incomplete(self.type, old(self._values), 0) < 0', carries='C01',
+                         label='every-required-key-map-and-slot-is-filled'),
+                  Clause('forall(lambda i: implies(0 <= i and i < len(self.type._children), '
+                         'conv_ok(self.type._children[i][1], complete_slot(self.type._children[i][1], old(self._values)[%s]), '
+                         'self._values[%s])))' % (ATTR_I, ATTR_I), carries='C02',
+                         label='value-tree-from-collected-values-and-defaults'),
+                  Clause('keys(self._values) == keys(old(self._values))', carries='C02', label='same-attributes')] + VALUE_OF,
+         raises=[Raise('ZConfig.DataConversionError', then=[Clause('exc.has_lineno')], carries='C01,C08',
+                       label='a-value-does-not-convert'),
+                 Raise('ZConfig.ConfigurationError', when='first_incomplete(self.type, self._values, 0) >= 0',
+                       carries='C01', label='something-required-is-missing')],
+         hints=['first_incomplete(self.type, old(self._values), _i0)'],
+         loops=[Loop(invariant=[Clause(DONE_J, label='children-so-far-complete-and-filled'),
+                                Clause(TODO_J, label='later-children-untouched'),
+                                Clause('keys(self._values) == keys(old(self._values))', label='same-attributes'),
+                                Clause('first_incomplete(self.type, old(self._values), _i0) == '
+                                       'first_incomplete(self.type, old(self._values), 0)', label='remaining-search-equals-search')],
+                     hints=['first_incomplete(self.type, old(self._values), _i0)'],
+                     locals={'key': 'Opt[str]', 'ci': 'Ref[info.BaseInfo]', 'attr': 'str', 'default': 'Slot'},
+                     modifies=['self._values'])])
+
+contract('matcher.SchemaMatcher.finish', returns='Opaque[PyVal]',
+         modifies=['self._values', 'self.handlers.items'],
+         asserts=[At("args[0]._matcher == self and args[0]._dict == self._values and args[0]._name is None and "
+                     "args[0]._attributes == keys(self._values)", call='self.type.datatype', carries='C02',
+                     label='schema-datatype-applied-to-the-top-level-value')],
+         ensures=[Clause('implies(self.type.handler is not None, len(self.handlers.items) >= 1 and '
+                         'self.handlers.items[-1] == (val(self.type.handler), result))', carries='C16',
+                         label='schema-level-handler-entry-last-with-the-converted-top-value')],
+         raises=[Raise('ZConfig.ConfigurationError+', carries='C01', label='not-conforming'),
+                 Raise('ValueError', label='the schema datatype itself raised (passes through unchanged, C07)')])
